@@ -39,7 +39,7 @@ def SPushed (P : Prog) (c : Cfg) : Instr → List Instr → Prop
 
 theorem step_sched_pushed (P : Prog) (c : Cfg) (ins : Instr) (rest : List Instr) (hc : c.code = ins :: rest)
     (hl : ins.loopish = false) :
-    ∃ pushed, CodeStep (outCfg (step P c)) rest pushed ∧ SPushed P c ins pushed := by
+    ∃ pushed, CodeStep (sOutCfg (step P c)) rest pushed ∧ SPushed P c ins pushed := by
   cases ins <;> (first | (exfalso; revert hl; simp [Instr.loopish]; done) | skip) <;> simp only [step, hc]
   case act a =>
     cases a <;> (first | (exfalso; revert hl; simp [Instr.loopish, Act.isStackOp]; done) | skip) <;> simp only [doAct]
@@ -127,13 +127,13 @@ def Pushed (P : Prog) (c : Cfg) (ins : Instr) (pushed : List Instr) : Prop :=
   if ins.loopish then ∀ i ∈ pushed, i.external = true else SPushed P c ins pushed
 
 theorem step_code (P : Prog) (c : Cfg) (ins : Instr) (rest : List Instr) (hc : c.code = ins :: rest) :
-    ∃ pushed, CodeStep (outCfg (step P c)) rest pushed ∧ Pushed P c ins pushed := by
+    ∃ pushed, CodeStep (sOutCfg (step P c)) rest pushed ∧ Pushed P c ins pushed := by
   unfold Pushed
   cases hl : ins.loopish
   · simpa using step_sched_pushed P c ins rest hc hl
   · simpa using (step_loopish P c ins rest hc hl).2
 
-theorem step_nil (P : Prog) (c : Cfg) (hc : c.code = []) : outCfg (step P c) = c := by
+theorem step_nil (P : Prog) (c : Cfg) (hc : c.code = []) : sOutCfg (step P c) = c := by
   simp [step, hc]
 
 end Simpleline
